@@ -1361,6 +1361,42 @@ pub fn run(ctx: &mut Ctx, eng: &mut dyn Engine) {
         }
     }
 
+    // ---- 20. OBJECT-level FTI poisoning (review batch 3): ONE forged datagram of the TOI with a conflicting EXT_FTI (transfer length
+    //           2^40, another E, another B) arrives BEFORE the FDT and the genuine packets; the FDT is the authority: the object must
+    //           be delivered byte-exact (before the repair in attach_fdt it ended `interrupted`)
+    for (vi, ed) in [
+        Edit { tl: Some(1u64 << 40), force_fti: true, ..Default::default() },
+        Edit { e: Some(32), force_fti: true, ..Default::default() },
+        Edit { b: Some(1), force_fti: true, ..Default::default() },
+        Edit { tl: Some(7), e: Some(8), force_fti: true, ..Default::default() },
+    ]
+    .iter()
+    .enumerate()
+    {
+        for inband in [true, false] {
+            let oti = scheme_oti(0, 16, 4, 0, inband);
+            let spec = ObjSpec { content: content(&mut rng, 150), cenc: Cenc::Null, inband_cenc: false, md5: vi % 2 == 0, oti: None, transfers: 1 };
+            let sess = match make_session(&oti, &[spec], 1, 1) {
+                Some(s) => s,
+                None => continue,
+            };
+            let o = sess.objs[0].clone();
+            let first_obj = match sess.pkts.iter().find(|raw| alc::parse_alc_pkt(raw).map(|p| p.lct.toi == o.toi).unwrap_or(false)) {
+                Some(r) => r.clone(),
+                None => continue,
+            };
+            let forged = match rebuild(&first_obj, &o, ed) {
+                Some(f) => f,
+                None => continue,
+            };
+            let mut h: Vec<Option<Vec<u8>>> = vec![Some(forged)];
+            h.extend(all_pushed(&sess.pkts).into_iter().filter(|x| x.is_some()));
+            h.push(None);
+            r.ctx.count("fti-poison");
+            r.case("fti-poison", &dflt, &sess, &[], &h, false);
+        }
+    }
+
     // ---- 15. a TOI reused for DIFFERENT content while the older FDT instance that listed it is still retained
     //          (FDT-only OTI, no MD5, receive_once off): the new object must take the NEWEST instance listing the TOI
     for i in 0..(if thorough { 40 } else { 10 }) {
